@@ -202,7 +202,7 @@ Op("concatenate_freq", lambda i: i["radio"] and i["sshape"][0] >= 2, a_concat_f,
 
 def a_dm(draw, i):
     return {"frac": draw(st.sampled_from([0.0, 0.05, 0.2, 0.5, 1.3])), "sign": draw(st.sampled_from([-1, 1])),
-            "ref": draw(st.sampled_from(["none", "lo", "hi", "above"])), "chirp": draw(st.booleans())}
+            "ref": draw(st.sampled_from(["none", "lo", "hi", "above"])), "chirp": draw(st.sampled_from([False, False, True, "gains"]))}
 
 
 def dm_for(pb, z, a):
@@ -225,6 +225,11 @@ def r_cdd(pb, z, a, DM=None, chirp=None):
     D = D if DM is None else DM
     if a["chirp"]:
         ch = D.chirp_from_signal(z, **kw) if chirp is None else chirp
+        if a["chirp"] == "gains":
+            # the caller's chirp carries per-channel gains estimated from the signal itself (all exactly 1 here): for a Dask-backed signal that
+            # chirp is a lazy array whose graph contains the signal's
+            v = z.data[(slice(0, 1), slice(None)) + (0,) * (z.ndim - 2)]
+            ch = ch * np.where(abs(v) >= 0, 1.0, 1.0)
         return pb.coherent_dedispersion(z, D, chirp=ch, **kw)
     return pb.coherent_dedispersion(z, D, **kw)
 
